@@ -930,6 +930,84 @@ def chain_histories(tier):
             if h[-1] == "R" and h.count("R") >= 2 and any(o != "R" for o in h)]
 
 
+# ------------------------------------------------------------------------------------------------
+# (9) parameter objects handed to the library are never modified, and a parameter object shared by several computations
+#     (of different lengths) gives what a fresh equal parameter object gives
+
+def _public_state(obj):
+    out = {}
+    for k in dir(obj):
+        if k.startswith("_"):
+            continue
+        try:
+            v = getattr(obj, k)
+        except Exception:  # noqa
+            continue
+        if callable(v):
+            continue
+        out[k] = repr(np.asarray(v).tolist()) if isinstance(v, np.ndarray) else repr(v)
+    return out
+
+
+PARAM_COMPS = ["pt-short", "pt-long", "tempo-short", "tempo-long", "mf-long", "gibbs", "tebd"]
+
+
+def parameter_case(perm):
+    mem, order = perm
+    dk = {"none": None, "dk3": 3}[mem]
+    bath = oq.Bath(0.5 * M.SX, M.ohmic(alpha=0.4, temperature=0.4))
+
+    def fresh():
+        return {"tempo": oq.TempoParameters(dt=DT, epsrel=1e-9, dkmax=dk),
+                "gibbs": oq.GibbsParameters(n_steps=4, epsrel=1e-9),
+                "tebd": oq.PtTebdParameters(dt=DT, order=2, epsrel=1e-9)}
+
+    def comp(name, P):
+        sysm = oq.System(0.5 * M.SZ + 0.2 * M.SX)
+        if name.startswith("pt-"):
+            n = 2 if name == "pt-short" else 6
+            pt = oq.pt_tempo_compute(bath, 0.0, (n + 0.4) * DT, P["tempo"], progress_type="silent")
+            return np.array(oq.compute_dynamics(sysm, M.RHO_GEN2, process_tensor=pt, progress_type="silent").states)[-1].ravel()
+        if name.startswith("tempo-"):
+            n = 2 if name == "tempo-short" else 6
+            return np.array(oq.Tempo(sysm, bath, P["tempo"], M.RHO_GEN2, 0.0).compute((n + 0.4) * DT, progress_type="silent").states)[-1].ravel()
+        if name == "mf-long":
+            s_ = oq.TimeDependentSystemWithField(lambda t, a: 0.5 * M.SZ + np.real(a) * M.SX)
+            m = oq.MeanFieldSystem([s_], lambda t, st, a: -0.1 * a - 0.1j * np.trace(M.SM @ st[0]))
+            t_ = oq.MeanFieldTempo(m, [bath], P["tempo"], [M.RHO_GEN2], 0.5, 0.0)
+            return np.array(t_.compute(5.4 * DT, progress_type="silent").system_dynamics[0].states)[-1].ravel()
+        if name == "gibbs":
+            b = oq.Bath(np.diag([0.5, -0.5]).astype(complex), M.ohmic(alpha=0.2, temperature=0.7))
+            return np.asarray(oq.gibbs_tempo_compute(oq.System(0.3 * M.SZ + 0.2 * M.SX), b, P["gibbs"], progress_type="silent")).ravel()
+        chain = oq.SystemChain(hilbert_space_dimensions=[2, 2])
+        chain.add_site_hamiltonian(site=0, hamiltonian=0.5 * M.SX)
+        chain.add_nn_hamiltonian(site=0, hamiltonian_l=0.4 * M.SZ, hamiltonian_r=M.SZ)
+        t_ = oq.PtTebd(oq.AugmentedMPS([M.RHO_GEN2, M.RHO_PLUS]), chain, [None, None], P["tebd"], dynamics_sites=[0])
+        return np.asarray(t_.compute(3, progress_type="silent")["dynamics"][0].states)[-1].ravel()
+    shared = fresh()
+    before = {k: _public_state(v) for k, v in shared.items()}
+    vio = []
+    for i, name in enumerate(order):
+        try:
+            got = comp(name, shared)
+            exp = comp(name, fresh())
+        except Exception as ex:  # noqa
+            vio.append((f"parameters|{name}|exception:{type(ex).__name__}", f"memory={mem} order {order}: {ex}"[:160]))
+            break
+        after = {k: _public_state(v) for k, v in shared.items()}
+        changed = [f"{k}.{a}" for k in after for a in after[k] if after[k][a] != before[k].get(a)]
+        if changed:
+            vio.append((f"parameters|{name}|the-callers-parameter-object-was-modified",
+                        f"memory={mem} order {order}: after {name} the attributes {changed[:4]} of the caller's parameter object "
+                        f"changed: {[(before[c.split('.')[0]].get(c.split('.')[1]), after[c.split('.')[0]][c.split('.')[1]]) for c in changed[:2]]}"))
+            before = after
+        if got.shape != exp.shape or np.abs(got - exp).max() > 1e-6:
+            vio.append((f"parameters|{name}-after-{'+'.join(order[:i]) or 'nothing'}|differs-from-fresh-parameter-objects",
+                        f"memory={mem} order {order}: {name} with the shared parameter object differs from a fresh one by "
+                        f"{np.abs(got - exp).max() if got.shape == exp.shape else 'shape'}"))
+    return {"vio": vio, "n": len(order)}
+
+
 RESOLUTION_COMPS = ["tempo-dt1", "tempo-dt2", "free-dt1", "free-dt2", "td-dt2", "mf-dt2", "mf-dt1"]
 
 
@@ -1070,6 +1148,12 @@ def run(tier, seed):
         nl += r["n"]
         for cls, what in r["vio"]:
             rep.add(Violation(cls, what, {"part": "chain", "hist": list(h)}))
+    pperms = [(mem, o_) for mem in ("none", "dk3") for o_ in itertools.permutations(PARAM_COMPS, 2 if tier == "quick" else 3)]
+    ppres = pmap(parameter_case, pperms, seed=seed)
+    for p_, r in zip(pperms, ppres):
+        trans += r["n"]
+        for cls, what in r["vio"]:
+            rep.add(Violation(cls, what, {"part": "parameters", "perm": [p_[0], list(p_[1])]}))
     rperms = list(itertools.permutations(RESOLUTION_COMPS, 3 if tier == "quick" else 4))
     qres = pmap(resolution_case, rperms, seed=seed)
     for p_, r in zip(rperms, qres):
@@ -1081,7 +1165,7 @@ def run(tier, seed):
         "transitions": trans + nl,
         "traces_validated_against_impl": len(jobs) + nl + len(perms),
         "histories": len(jobs), "history_depth": depth, "layout_runs": nl, "apis_with_array_arguments": len(names),
-        "reuse_orders": len(perms), "bath_dynamics_query_histories": len(bh), "resolution_orders": len(rperms), "pure_functions": len(pnames), "chain_histories": len(chs),
+        "reuse_orders": len(perms), "bath_dynamics_query_histories": len(bh), "resolution_orders": len(rperms), "pure_functions": len(pnames), "chain_histories": len(chs), "parameter_object_orders": len(pperms),
         "exhaustive": tier == "thorough",
         "rule": "state = (current public parameter values of objects A and B, selected object, parameters the latest bath was "
                 "built with); every history over {E,B,R,T,S1,S2,X} up to the depth that ends in an observation is executed on real "
@@ -1114,6 +1198,9 @@ def replay(rp):
     if rp["part"] == "ptupdate":
         a = rp["args"]
         r = pt_update_case((a[0], a[1], tuple(a[2])))
+        return {"obs": r["vio"], "violation": r["vio"][0][0] if r["vio"] else None}
+    if rp["part"] == "parameters":
+        r = parameter_case((rp["perm"][0], tuple(rp["perm"][1])))
         return {"obs": r["vio"], "violation": r["vio"][0][0] if r["vio"] else None}
     if rp["part"] == "chain":
         r = chain_history_case(tuple(rp["hist"]))
